@@ -277,6 +277,7 @@ func (w *World) compareSize(k *Kind) *SizeVerdict {
 		t = applyFacts(t, kf, used)
 		t = w.applyPremises(k, t, used)
 		t = w.applyNestedFacts(k, t, used)
+		t = dropNilGuards(t)
 		return t
 	}
 	self := LenCall("$", k.Name)
@@ -581,4 +582,29 @@ func builtRule(w *World, r *Report, rule string, sel func(k *Kind) bool) {
 			r.OK(rule, k.Name, "built", pos, "the encoded size depends on "+strings.Join(facts, ", ")+"; every value of the kind created in the module comes from a constructor", true)
 		}
 	}
+}
+
+// dropNilGuards removes a nil test that does not change the value: ite(L==nil ? a : b) where b, with every
+// sum over L and len(L) taken as 0 (a nil slice has no elements), equals a — ranging over a nil list and
+// skipping the loop when the list is nil produce the same size.
+func dropNilGuards(t *Term) *Term {
+	if t == nil {
+		return nil
+	}
+	return t.Map(func(a *Atom) *Term {
+		if a.Kind != "ite" || len(a.Sub) != 2 || !strings.HasSuffix(a.Cond, "==nil") {
+			return nil
+		}
+		p := strings.TrimSuffix(a.Cond, "==nil")
+		zeroed := a.Sub[1].Map(func(b *Atom) *Term {
+			if (b.Kind == "sum" || b.Kind == "len") && b.Path == p {
+				return Const(0)
+			}
+			return nil
+		})
+		if zeroed.Equal(a.Sub[0]) {
+			return a.Sub[1]
+		}
+		return nil
+	})
 }
